@@ -139,3 +139,27 @@ register(
     ],
     probes=["unseeded_RandomState", "labels_str", "documented_determinism_checked"],
 )
+
+register(
+    "C07",
+    quick=2500,
+    thorough=100000,
+    level="exploration",
+    rule=(
+        "one run = one ConstraintKMeans scenario (k in 1..7, n in k..k+53 with all residues n mod k, d in 1..3, "
+        "data style incl. duplicates / collinear / integer grids, strategy gain|distance, kmeans0, random_state, "
+        "max_iter incl. tiny values, optional sample weights) fitted with the entropy seam answering every "
+        "numpy.random request of the balancing code adversarially (3/4 of the runs: all-zero / all-(1-eps) uniforms, "
+        "identity / reversed / rotated permutations, range extremes) or from the pinned global RNG, then 1..3 "
+        "prediction batches of any size (m < k, m mod k in {0,1,>=2}) predicted plainly and balanced; oracles: label "
+        "range, histogram entries in {floor, ceil}, finite centres, n_iter_ <= max_iter, plain predict = nearest "
+        "centre (ties accepted), seam-call cap as bounded liveness; non-trivial = the seam was consulted; distinct = "
+        "distinct (k, residue class, style, strategy, kmeans0, random_state kind, max_iter, entropy mode, weights)"
+    ),
+    assumptions=[
+        "strategy 'weights' is outside the statement and not generated",
+        "the entropy consumed by the balancing code enters through numpy.random.rand / permutation and check_random_state(None) as seen from mlinsights modules",
+        "KMeans (scikit-learn) is trusted for the initial clustering",
+    ],
+    probes=["n%k=0", "n%k=1", "n%k>=2", "strategy_gain", "strategy_distance", "balanced_predict_m<k", "balanced_predict_m%k>=2"],
+)
